@@ -15,6 +15,9 @@ import IronCalc.Basic.Range
 namespace IronCalc.Names
 open IronCalc IronCalc.Generated.Names
 
+theorem getD_lt (l : List Nat) (i d : Nat) (h : i < l.length) : l.getD i d = l[i] := by
+  simp [List.getD_eq_getElem?_getD, List.getElem?_eq_getElem h]
+
 /-! ### generic: first match -/
 
 theorem findFrom_none {key : Nat} {l : List Nat} {s : Nat}
@@ -91,12 +94,12 @@ def sigU (k : Nat) : Bool := Nat.beq (k / 256 ^ (k.log2 / 8 - 1) % 256) 95
     except the lookup itself -/
 def nameGood (L i c : Nat) : Bool :=
   let raw := bytesOf c
-  Nat.beq (codeOf (upperAscii raw)) c
+  (codeOf (upperAscii raw) == c)
   && !(raw == ascii "_xlfn.LAMBDA") && !(raw == ascii "_xlfn.SINGLE") && !(raw == ascii "_xlfn.ANCHORARRAY")
   && (stripAll xlfnXlws raw == raw) && (stripAll xlfn raw == raw)
-  && (!(Nat.beq c (boolTrue.getD L 0)) || Nat.beq i trueIdx)
-  && (!(Nat.beq c (boolFalse.getD L 0)) || Nat.beq i falseIdx)
-  && ((upperAscii raw == ascii "LAMBDA") == Nat.beq i lambdaIdx)
+  && (!(c == boolTrue.getD L 0) || (i == trueIdx))
+  && (!(c == boolFalse.getD L 0) || (i == falseIdx))
+  && ((upperAscii raw == ascii "LAMBDA") == (i == lambdaIdx))
 
 /-- the same for the xlsx name `x` of function `i` (English reader): after the prefix handling the
     first lookup either is the English name (`k1`), or starts with `_` (a miss) and the second
@@ -108,19 +111,19 @@ def xlsxGood (i x : Nat) : Bool :=
   let k2 := codeOf (upperAscii (stripAll xlfn raw))
   let en := nameOf enIdx i
   !(raw == ascii "_xlfn.SINGLE") && !(raw == ascii "_xlfn.ANCHORARRAY")
-  && (!(Nat.beq u (boolTrue.getD enIdx 0)) || Nat.beq i trueIdx)
-  && (!(Nat.beq u (boolFalse.getD enIdx 0)) || Nat.beq i falseIdx)
-  && (isLambdaWord raw == Nat.beq i lambdaIdx)
-  && (Nat.beq k1 en || (sigU k1 && Nat.beq k2 en))
+  && (!(u == boolTrue.getD enIdx 0) || (i == trueIdx))
+  && (!(u == boolFalse.getD enIdx 0) || (i == falseIdx))
+  && (isLambdaWord raw == (i == lambdaIdx))
+  && ((k1 == en) || (sigU k1 && (k2 == en)))
 
 /-- the whole table check, evaluated once by the kernel -/
 def tableOK : Bool :=
-  !(Nat.beq trueIdx lambdaIdx) && !(Nat.beq falseIdx lambdaIdx)
+  !(trueIdx == lambdaIdx) && !(falseIdx == lambdaIdx)
   && Nat.blt enIdx nLanguages
-  && Nat.beq xlsxNames.length nFunctions
+  && (xlsxNames.length == nFunctions)
   && allRange 0 nLanguages (fun L =>
-      Nat.beq (names L).length nFunctions
-      && forIdx (fun i c => Nat.beq ((treeOf L).find c) i && nameGood L i c) (names L) 0)
+      ((names L).length == nFunctions)
+      && forIdx (fun i c => ((treeOf L).find c == i) && nameGood L i c) (names L) 0)
   && forIdx (fun _ c => !(sigU c)) (names enIdx) 0
   && forIdx (fun i x => xlsxGood i x) xlsxNames 0
 
@@ -139,22 +142,20 @@ structure TableFacts : Prop where
 
 theorem tableFacts_of (h : tableOK = true) : TableFacts := by
   unfold tableOK at h
-  simp only [Bool.and_eq_true, Bool.not_eq_true', Nat.blt_eq] at h
+  simp only [Bool.and_eq_true, Bool.not_eq_true', Nat.blt_eq, beq_iff_eq, beq_eq_false_iff_ne, ne_eq] at h
   obtain ⟨⟨⟨⟨⟨⟨h1, h2⟩, h3⟩, h4⟩, h5⟩, h6⟩, h7⟩ := h
   have hL := allRange_spec 0 nLanguages _ h5
-  refine ⟨?_, ?_, h3, Nat.eq_of_beq_eq_true h4, ?_, ?_, ?_, ?_, ?_⟩
-  · intro e; rw [e] at h1; simp at h1
-  · intro e; rw [e] at h2; simp at h2
+  refine ⟨h1, h2, h3, h4, ?_, ?_, ?_, ?_, ?_⟩
   · intro L hLlt
     have := hL L (Nat.zero_le _) (by omega)
-    simp only [Bool.and_eq_true] at this
-    exact Nat.eq_of_beq_eq_true this.1
+    simp only [Bool.and_eq_true, beq_iff_eq] at this
+    exact this.1
   · intro L hLlt j hj
     have := hL L (Nat.zero_le _) (by omega)
     simp only [Bool.and_eq_true] at this
     have := forIdx_spec this.2 j hj
-    simp only [Bool.and_eq_true, Nat.zero_add] at this
-    exact Nat.eq_of_beq_eq_true this.1
+    simp only [Bool.and_eq_true, Nat.zero_add, beq_iff_eq] at this
+    exact this.1
   · intro L hLlt j hj
     have := hL L (Nat.zero_le _) (by omega)
     simp only [Bool.and_eq_true] at this
@@ -175,7 +176,7 @@ theorem lookupU_hit (F : TableFacts) {L : Nat} (hL : L < nLanguages) {i : Nat} (
   have hi' : i < (names L).length := by omega
   have := findFrom_hit (treeOf L).find (names L) 0 (fun j hj => by rw [F.cert L hL j hj]; omega) i hi'
   unfold lookupU nameOf
-  rw [List.getD_eq_getElem _ _ hi', this]; simp
+  rw [getD_lt _ _ _ hi', this]; simp
 
 theorem nameOf_inj (F : TableFacts) {L : Nat} (hL : L < nLanguages) {i j : Nat}
     (hi : i < nFunctions) (hj : j < nFunctions) (h : nameOf L i = nameOf L j) : i = j := by
@@ -202,12 +203,12 @@ theorem callKind_name (F : TableFacts) {L : Nat} (hL : L < nLanguages) {i : Nat}
     (nargs : Nat) : callKind L (bytesOf (nameOf L i)) nargs = expected i nargs := by
   have hi' : i < (names L).length := by rw [F.len L hL]; exact hi
   have hg := F.good L hL i hi'
-  have hc : (names L)[i] = nameOf L i := by unfold nameOf; rw [List.getD_eq_getElem _ _ hi']
+  have hc : (names L)[i] = nameOf L i := by unfold nameOf; rw [getD_lt _ _ _ hi']
   rw [hc] at hg
   have hit := lookupU_hit F hL hi
   generalize nameOf L i = c at hg hit
   unfold nameGood at hg
-  simp only [Bool.and_eq_true, Bool.not_eq_true', Bool.or_eq_true, beq_iff_eq, Nat.beq_eq_true_eq,
+  simp only [Bool.and_eq_true, Bool.not_eq_true', Bool.or_eq_true, beq_iff_eq,
     beq_eq_false_iff_ne, ne_eq] at hg
   obtain ⟨⟨⟨⟨⟨⟨⟨⟨hu, hx1⟩, hx2⟩, hx3⟩, hs1⟩, hs2⟩, hbt⟩, hbf⟩, hlam⟩ := hg
   have hlook : resolveLookup L (bytesOf c) = Res.fn i := by
@@ -219,7 +220,7 @@ theorem callKind_name (F : TableFacts) {L : Nat} (hL : L < nLanguages) {i : Nat}
   · rw [if_pos ht]
     have : i = trueIdx := by
       rcases hbt with h | h
-      · exact absurd ht (by simpa using h)
+      · exact absurd ht h
       · exact h
     rw [this, if_neg F.tl]
   · rw [if_neg ht]
@@ -227,7 +228,7 @@ theorem callKind_name (F : TableFacts) {L : Nat} (hL : L < nLanguages) {i : Nat}
     · rw [if_pos hf]
       have : i = falseIdx := by
         rcases hbf with h | h
-        · exact absurd hf (by simpa using h)
+        · exact absurd hf h
         · exact h
       rw [this, if_neg F.fl]
     · rw [if_neg hf]
@@ -238,7 +239,7 @@ theorem callKind_name (F : TableFacts) {L : Nat} (hL : L < nLanguages) {i : Nat}
       rw [hw]
       by_cases hl : i = lambdaIdx
       · have : (upperAscii (bytesOf c) == ascii "LAMBDA") = true := by
-          rw [hlam]; simp [hl]
+          rw [hlam, hl]; simp
         rw [if_pos this, if_pos hl]
       · have : (upperAscii (bytesOf c) == ascii "LAMBDA") = false := by
           rw [hlam]; simpa using hl
@@ -251,12 +252,12 @@ theorem callKind_xlsx (F : TableFacts) {i : Nat} (hi : i < nFunctions) (nargs : 
     callKind enIdx (bytesOf (xlsxOf i)) nargs = expected i nargs := by
   have hi' : i < xlsxNames.length := by rw [F.xlen]; exact hi
   have hg := F.xgood i hi'
-  have hc : xlsxNames[i] = xlsxOf i := by unfold xlsxOf; rw [List.getD_eq_getElem _ _ hi']
+  have hc : xlsxNames[i] = xlsxOf i := by unfold xlsxOf; rw [getD_lt _ _ _ hi']
   rw [hc] at hg
   have hit := lookupU_hit F F.en hi
   generalize xlsxOf i = x at hg
   unfold xlsxGood at hg
-  simp only [Bool.and_eq_true, Bool.not_eq_true', Bool.or_eq_true, beq_iff_eq, Nat.beq_eq_true_eq,
+  simp only [Bool.and_eq_true, Bool.not_eq_true', Bool.or_eq_true, beq_iff_eq,
     beq_eq_false_iff_ne, ne_eq] at hg
   obtain ⟨⟨⟨⟨⟨hx2, hx3⟩, hbt⟩, hbf⟩, hlam⟩, hk⟩ := hg
   have hlook : resolveLookup enIdx (bytesOf x) = Res.fn i := by
@@ -269,7 +270,7 @@ theorem callKind_xlsx (F : TableFacts) {i : Nat} (hi : i < nFunctions) (nargs : 
   · rw [if_pos ht]
     have : i = trueIdx := by
       rcases hbt with h | h
-      · exact absurd ht (by simpa using h)
+      · exact absurd ht h
       · exact h
     rw [this, if_neg F.tl]
   · rw [if_neg ht]
@@ -277,12 +278,12 @@ theorem callKind_xlsx (F : TableFacts) {i : Nat} (hi : i < nFunctions) (nargs : 
     · rw [if_pos hf]
       have : i = falseIdx := by
         rcases hbf with h | h
-        · exact absurd hf (by simpa using h)
+        · exact absurd hf h
         · exact h
       rw [this, if_neg F.fl]
     · rw [if_neg hf]
       by_cases hl : i = lambdaIdx
-      · have : isLambdaWord (bytesOf x) = true := by rw [hlam]; simp [hl]
+      · have : isLambdaWord (bytesOf x) = true := by rw [hlam, hl]; simp
         rw [if_pos this, if_pos hl]
       · have : isLambdaWord (bytesOf x) = false := by rw [hlam]; simpa using hl
         rw [this, if_neg hl]
@@ -330,7 +331,7 @@ theorem firstErr_unique (tbl : List (List Nat)) (p : List Nat → Bool) (order :
 /-- no spelling of language `L` is a prefix of another one (`error_prefix_order_ok` as a check) -/
 def prefixFree (L : Nat) : Bool :=
   allRange 0 nErrors fun e => allRange 0 nErrors fun e' =>
-    Nat.beq e e' || !(isPrefix (errName L e) (errName L e'))
+    (e == e') || !(isPrefix (errName L e) (errName L e'))
 
 theorem lexError_of_prefixFree {L : Nat} (h : prefixFree L = true) {e : Nat} (he : e < nErrors)
     (suffix : List Nat) : lexError L (errName L e ++ suffix) = some (e, (errName L e).length) := by
@@ -338,7 +339,7 @@ theorem lexError_of_prefixFree {L : Nat} (h : prefixFree L = true) {e : Nat} (he
     intro a b ha hb hab
     have := allRange_spec 0 nErrors _ (allRange_spec 0 nErrors _ h a (Nat.zero_le _) (by omega)) b
       (Nat.zero_le _) (by omega)
-    simp only [Bool.or_eq_true, Nat.beq_eq_true_eq, Bool.not_eq_true'] at this
+    simp only [Bool.or_eq_true, beq_iff_eq, Bool.not_eq_true'] at this
     rcases this with h' | h'
     · exact absurd h' hab
     · exact h'
@@ -356,7 +357,7 @@ theorem lexError_of_prefixFree {L : Nat} (h : prefixFree L = true) {e : Nat} (he
         exfalso
         rcases isPrefix_comparable _ _ _ hb with h1 | h1
         · have := hpf e' e he'lt he hne
-          unfold errName at this; rw [this] at h1; cases h1
+          unfold errName at this h1; rw [this] at h1; cases h1
         · have := hpf e e' he he'lt (Ne.symm hne)
           unfold errName at this h1; rw [this] at h1; cases h1
   unfold lexError
@@ -366,11 +367,11 @@ theorem name_folded (F : TableFacts) {L : Nat} (hL : L < nLanguages) {i : Nat} (
     codeOf (upperAscii (bytesOf (nameOf L i))) = nameOf L i := by
   have hi' : i < (names L).length := by rw [F.len L hL]; exact hi
   have hg := F.good L hL i hi'
-  have hc : (names L)[i] = nameOf L i := by unfold nameOf; rw [List.getD_eq_getElem _ _ hi']
+  have hc : (names L)[i] = nameOf L i := by unfold nameOf; rw [getD_lt _ _ _ hi']
   rw [hc] at hg
   unfold nameGood at hg
-  simp only [Bool.and_eq_true] at hg
-  exact Nat.eq_of_beq_eq_true hg.1.1.1.1.1.1.1.1
+  simp only [Bool.and_eq_true, beq_iff_eq] at hg
+  exact hg.1.1.1.1.1.1.1.1
 
 /-! ### first-match lookup in an association list does not depend on the order of the entries -/
 
@@ -438,11 +439,11 @@ def errTableOK : Bool :=
     prefixFree L
     && allRange 0 nErrors (fun e =>
         (errorOfName L (errName L e) == some e)
-        && Nat.beq (optCode (errorOfName L (errName L e))) ((errByName.getD L []).getD e 0)
-        && Nat.beq (optCode ((lexError L (errName L e)).map Prod.fst)) ((errLex.getD L []).getD e 0)))
+        && (optCode (errorOfName L (errName L e)) == (errByName.getD L []).getD e 0)
+        && (optCode ((lexError L (errName L e)).map Prod.fst) == (errLex.getD L []).getD e 0)))
   && allRange 0 nErrors (fun e =>
       (errorOfEnglish (display e) == some e)
-      && Nat.beq (optCode (errorOfEnglish (display e))) (errByEnglish.getD e 0)
+      && (optCode (errorOfEnglish (display e)) == errByEnglish.getD e 0)
       && (display e == errName enIdx e))
 
 structure ErrFacts : Prop where
@@ -485,7 +486,7 @@ theorem errFacts_of (h : errTableOK = true) : ErrFacts := by
   · intro L e hl he
     have h1 := hLe L e hl he
     have h2 := hE e (Nat.zero_le _) (by omega)
-    simp only [Bool.and_eq_true, beq_iff_eq, Nat.beq_eq_true_eq] at h1 h2
+    simp only [Bool.and_eq_true, beq_iff_eq] at h1 h2
     exact ⟨h1.1.2, h1.2, h2.1.2⟩
 
 end IronCalc.Names
